@@ -14,18 +14,21 @@ import (
 	"os"
 	"time"
 
+	"github.com/zeromicro/go-zero/core/logx"
 	"github.com/zeromicro/go-zero/verifshim/vlib"
 	"github.com/zeromicro/go-zero/verifshim/vsched"
 	"github.com/zeromicro/go-zero/verifshim/vx"
 )
 
-const rule = "(A) breadth-first search over histories of qrow/take/qidx/get reads, Exec writes+deletes with the row's cache keys, SetCache, " +
+const rule = "(A) breadth-first search over histories of qrow/take/qidx/get reads, Exec writes+deletes with the row's cache keys, SetCache, SetCacheWithExpire(2.5s), " +
 	"clock advances {TTL/2, TTL, not-found TTL, TTL+6s}, next-DB-query-fails, cache outage begin/end (<=4 cache ops inside), jitter answer {x1.00,x1.05,x0.95} " +
 	"over rows {k1,k2} x {absent,v1,v2} and cache keys {p:1,p:2,i:a}; a state is distinct by reference state + complete miniredis content with TTLs and " +
 	"non-trivial when a cache entry, taint or armed fault is part of it; every transition re-executes the real code from an empty store. " +
 	"(B) every interleaving up to the preemption bound reported per scenario of 3 concurrent Take/QueryRow readers; distinct by (scenario, queries per key, flights, per-reader source Q=own query S=shared flight H=cache hit E=error)"
 
 func main() {
+	logx.Disable() // go-zero logs to stdout, which carries the worker protocols
+	logx.DisableStat()
 	cfg := vlib.ParseFlags("C06", "model_checking")
 	r := vlib.NewReport(cfg)
 	r.Assume("miniredis stands for Redis: TTLs move only with FastForward; an outage makes every data command answer with an error (go-redis does not retry it)")
@@ -50,8 +53,8 @@ func main() {
 			if err != nil {
 				vlib.Fatal("load replay: %v", err)
 			}
-			fmt.Printf("replay class=%s history: %s\n", class, pathString(c.Path))
-			res := runHistory(c.Path, true)
+			fmt.Printf("replay class=%s cluster=%v history: %s\n", class, c.Cluster, pathString(c.Path))
+			res := runHistory(c.Path, true, c.Cluster)
 			if res.fail != nil {
 				fmt.Printf("observed: class=%s step %d: %s\n", res.fail.class, res.at, res.fail.msg)
 				r.Violation(res.fail.class, res.fail.msg, c)
@@ -64,6 +67,9 @@ func main() {
 	}
 	if cfg.Shard != "" || cfg.BFSWorker != "" || cfg.Replay != "" {
 		initEnv()
+	}
+	if cfg.BFSWorker == "histories-cluster" {
+		env.initCluster()
 	}
 	if dbg := os.Getenv("C06_DEBUG"); dbg != "" { // debugging aid: trace the default schedule of one scenario twice
 		initEnv()
@@ -83,9 +89,20 @@ func main() {
 	}
 	only := os.Getenv("C06_ONLY") // debugging aid: "A" or "B" runs one engine only
 	if cfg.Shard == "" && cfg.Replay == "" && only != "B" {
-		// (A): the parent gives the history search ~60 % of the soft budget
-		total := time.Until(cfg.Deadline())
-		searchHistories(cfg, r, time.Now().Add(total*6/10))
+		// (A): soft time boxes of the history searches (quick: 60 + 25 s of the 150 s wall budget;
+		// thorough: 12 + 5 of the 25 minutes); (B) gets the rest of cfg.Deadline()
+		box1, box2 := 60*time.Second, 85*time.Second
+		d1, d2 := 6, 6
+		if cfg.Thorough() {
+			box1, box2 = 12*time.Minute, 17*time.Minute
+			d1, d2 = 8, 8
+		}
+		if cfg.BudgetS > 0 {
+			box1 = time.Duration(cfg.BudgetS) * time.Second * 4 / 10
+			box2 = time.Duration(cfg.BudgetS) * time.Second * 6 / 10
+		}
+		searchHistories(cfg, r, "histories", false, d1, cfg.Start.Add(box1))
+		searchHistories(cfg, r, "histories-cluster", true, d2, cfg.Start.Add(box2))
 	}
 	if only == "A" && cfg.Shard == "" && cfg.Replay == "" {
 		r.SetRule(rule)
